@@ -173,6 +173,14 @@ def keysApart : GSpec → List V → Bool
   | .nested g, its => its.all (fun x => keysApart g ((iterOf x).getD []))
   | _, _ => true
 
+/-- the runs the theorems cover: keys apart (H2) and no STOP source (H1'), or a top-level
+    Limit(n) over a STOP-free spec, or a top-level First -/
+def covered (g : GSpec) (its : List V) : Bool :=
+  match g with
+  | .limit _ _ sub => keysApart sub its && stopFree false sub its
+  | .agg _ .first => its.all (fun x => !(isStop x))      -- the items are not the STOP sentinel itself
+  | g => keysApart g its && stopFree false g its
+
 /-! ### the shapes of the two known defects (for classification only) -/
 
 def distinctKeys (key : Fn) (its : List V) : Nat := (bucketize key its).length
